@@ -555,9 +555,13 @@ func (t *trzszTransfer) getNewTimeout() <-chan time.Time {
 }
 
 // checkBinarySize rejects a binary block size that no sender can produce: a block is an escaped
-// chunk of at most the negotiated max buffer size ( which is at most 1G ).
+// chunk of at most the negotiated max buffer size ( which is at most 1G ), and senders start
+// with a buffer of a few KB even if the negotiated max buffer size is smaller than that.
 func (t *trzszTransfer) checkBinarySize(size int64) error {
 	maxSize := 2 * minInt64(t.transferConfig.MaxBufSize, 1024*1024*1024)
+	if maxSize < 2*1024*1024 {
+		maxSize = 2 * 1024 * 1024
+	}
 	if size < 0 || size > maxSize {
 		return simpleTrzszError("Invalid binary data size: %d", size)
 	}
